@@ -91,6 +91,10 @@ class SamplerCase(Case):
                 self.calls += 1
                 log["random"].append(n)
                 u = inp["d"][call].reshape(-1, case.dim)  # row i = point i of the sequence
+                if n > u.shape[0]:  # more points than are handed out: pad (the surplus is never claimed)
+                    pad = np.empty((n - u.shape[0], case.dim), dtype=object)
+                    pad.fill(SR(Fraction(1, 2)))
+                    u = np.vstack([u, pad])
                 return env.arr(u[:n])
 
         def stub_scale(sample, l_bounds, u_bounds):
@@ -137,6 +141,10 @@ class SamplerCase(Case):
         props = []
         log = oc.value["log"]
         props.append(("generator_of_the_evaluator_is_used", SB(all(g is oc.value["rng"] for g in log["rng"]) and len(log["rng"]) >= 1)))
+        if self.method in QMC:
+            # every point asked from the engine is handed out (a subset of an LHS design is not an LHS design)
+            nb = 1 if self.shared else R
+            props.append(("qmc_engine_asked_for_exactly_the_points_handed_out", SB(log["random"] == [nb * P] * self.calls)))
         for call, out in enumerate(oc.value["outs"]):
             a = np.asarray(vals(out), dtype=object)
             props.append((f"call{call}.shape", SB(a.shape == (R, P, N))))
@@ -290,12 +298,12 @@ class RealLhsCase(Case):
 
     family = "sampler/qmc"
 
-    def __init__(self, cid, R, P, N, seed):
-        self.id, self.R, self.P, self.N, self.seed = cid, R, P, N, seed
-        self.cfg0 = ens.ensemble_config(N=N, R=R, P=P, samplers=[{"method": "lhs"}])
+    def __init__(self, cid, R, P, N, seed, shared=False):
+        self.id, self.R, self.P, self.N, self.seed, self.shared = cid, R, P, N, seed, shared
+        self.cfg0 = ens.ensemble_config(N=N, R=R, P=P, samplers=[{"method": "lhs", "shared": shared}])
 
     def describe(self):
-        return f"real LatinHypercube R={self.R} P={self.P} N={self.N} seed={self.seed}"
+        return f"real LatinHypercube R={self.R} P={self.P} N={self.N} seed={self.seed} shared={self.shared}"
 
     def inputs(self, env):
         return {}
@@ -309,7 +317,9 @@ class RealLhsCase(Case):
         if not oc.ok:
             return [("no_internal_exception:" + type(oc.exc).__name__, SB(False))]
         a = np.asarray(oc.value, dtype=float)
-        n = self.R * self.P
+        if self.shared:
+            a = a[:1]
+        n = a.shape[0] * self.P
         pts = a.reshape(n, self.N)
         ok = True
         for j in range(self.N):
@@ -342,6 +352,7 @@ def build_cases(tier):
     seed = int(os.environ.get("VERIF_SEED", "0") or 0)
     add(RealLhsCase, 2, 2, 2, seed)
     add(RealLhsCase, 3, 2, 3, seed + 1)
+    add(RealLhsCase, 3, 4, 2, seed + 2, shared=True)
     if tier == "thorough":
         for m in STATS + QMC:
             add(method=m, N=3, R=3, P=3)
